@@ -233,7 +233,39 @@ def run(tier):
                         desc, type(ex).__name__, str(ex)[:100]), codec=cname, tagging=tagging, container=container,
                         constructed=constructed))
     f2, n2 = empty_inner(codecs)
-    return fails + f2, n + n2
+    f3, n3 = late_registration(codecs)
+    return fails + f2 + f3, n + n2 + n3
+
+
+def late_registration(codecs):
+    """a type map that is empty when the open type is declared and filled afterwards (how modules register their types in
+    each other's maps): the governing values registered later resolve"""
+    from pyasn1.type import univ, namedtype, opentype
+    fails, n = [], 0
+    for first in ({}, {7: univ.Null()}):
+        tmap = dict(first)
+        ot = opentype.OpenType('id', tmap)
+        spec = univ.Sequence(componentType=namedtype.NamedTypes(namedtype.NamedType('id', univ.Integer()),
+                                                                namedtype.NamedType('blob', univ.Any(), openType=ot)))
+        tmap[1] = univ.Integer()
+        tmap[2] = univ.OctetString()
+        for key, inner in ((1, univ.Integer(12)), (2, univ.OctetString(b'ab'))):
+            v = spec.clone()
+            v['id'] = key
+            v['blob'] = inner
+            for cname, enc, dec in codecs:
+                n += 1
+                try:
+                    r, rest = dec.decode(enc(v), asn1Spec=spec, decodeOpenTypes=True)
+                    if r['blob'].__class__ is not inner.__class__ or r['blob'] != inner:
+                        fails.append(rec('%s: governing value %d registered after the type was declared (map initially %s): '
+                                         'the field came back as %s' % (cname, key, 'empty' if not first else 'non-empty',
+                                                                        r['blob'].__class__.__name__), codec=cname,
+                                         tagging='untagged', container='single', constructed=False))
+                except Exception as ex:
+                    fails.append(rec('%s: late registration raised %s: %s' % (cname, type(ex).__name__, str(ex)[:100]),
+                                     codec=cname, tagging='untagged', container='single', constructed=False))
+    return fails, n
 
 
 def empty_inner(codecs):
